@@ -426,3 +426,19 @@ func specDataFlags(p *chunkPayloadData) uint8 {
 //@   tags C12 C01
 
 //@ auditserial{C16,C01,C05,C06,C07,C11,C14}
+
+// ---- receivePayloadQueue: range clearing and forward jumps of the cumulative point ----
+
+//@ func receivePayloadQueue.clearTSNRange
+//@   requires#ring len(q.tsnBitmask) > 0 && len(q.tsnBitmask) <= 1024 && len(q.tsnBitmask)&(len(q.tsnBitmask)-1) == 0
+//@   requires#one-revolution uint64(endTSN-startTSN) < 64*uint64(len(q.tsnBitmask))
+//@   loop 1 invariant#progress remaining == endTSN-startTSN+1 && startTSN-old(startTSN) <= endTSN-old(startTSN)+1 && len(q.tsnBitmask) == old(len(q.tsnBitmask))
+//@   loop 1 invariant#cleared-so-far forall t uint32 :: uint64(t-old(startTSN)) < 64*uint64(len(q.tsnBitmask)) ==>
+//@      specRpqBit(q, t) == (old(specRpqBit(q, t)) && !(t-old(startTSN) < startTSN-old(startTSN)))
+//@   loop 1 decreases int(remaining)
+//@   ensures#range-cleared-rest-untouched forall t uint32 :: uint64(t-old(startTSN)) < 64*uint64(len(q.tsnBitmask)) ==>
+//@      specRpqBit(q, t) == (old(specRpqBit(q, t)) && !(t-old(startTSN) <= endTSN-old(startTSN)))
+//@   ensures#frame q.cumulativeTSN == old(q.cumulativeTSN) && q.tailTSN == old(q.tailTSN) && q.maxTSNOffset == old(q.maxTSNOffset) && len(q.tsnBitmask) == old(len(q.tsnBitmask))
+//@   modifies q.tsnBitmask[*], q.chunkSize
+//@   tags C05 C07 C16
+//@   safety C03
